@@ -27,6 +27,11 @@ GEOMETRY = re.compile(r'(TreeKemPublic::(total_leaf_count|occupied_leaf_count)|N
 
 def run(ctx):
     P = ctx.P
+    # the re-init marker freezes the group: it may be set only by a commit that was accepted as a whole
+    from ..core.fa_rule import fail_atomic_paths
+    ctx.check('FAIL-ATOMIC', 'the re-init marker is recorded only when the re-init commit is accepted',
+              fail_atomic_paths(P, ['Group::process_incoming_message', 'Group::process_incoming_message_with_time', 'Group::apply_pending_commit'],
+                                r'^state\.pending_reinit(\.|$)', 'a re-init commit that fails late leaves the group frozen in an epoch it never left'), floor=1)
     J = 'ResumptionGroupBuilder::join'
     ctx.check('GUARD', 'frozen after re-init (sender)',
               lambda P_: guard(P_, 'Group::commit_internal', 'truth', r'is_some\(self\.state\.pending_reinit\)', None, 'GroupUsedAfterReInit'), floor=1)
